@@ -2448,3 +2448,14 @@ theorem parse_ok_isObj {o : POpts} {n : Nat} {v : JVal} {x : Obj} (h : parse o n
     | arr => rw [parse_succ_nonobj _ m _ (by intro ms h; cases h)] at h; cases h
 
 end Geo
+
+namespace Geo
+
+/-! ### building concrete documents -/
+
+/-- a finite JSON number whose source text is its canonical text -/
+def jnum (v : Rat) (s : String) : JVal := .num true v s s s
+def jstr (s : String) : JVal := .str ("\"" ++ s ++ "\"") s
+def jmem (k : String) (v : JVal) : String × String × JVal := ("\"" ++ k ++ "\"", k, v)
+
+end Geo
